@@ -6,6 +6,7 @@ import (
 	"github.com/Trendyol/go-dcp/config"
 	"os"
 	"strings"
+	"time"
 
 	"github.com/couchbase/gocbcore/v10"
 
@@ -43,6 +44,7 @@ func init() {
 			out = append(out, Instance{Scenario: "pipe", Params: mustJSON(PipeParams{Mode: "gen", Alphabet: []string{"M", "Mshort", "Mpart", "Mres", "Mempty"}, Depth: 4, Ops: []string{"deliver0", "deliver1", "ackold", "commit"}, CrashEnd: true}), Bound: 0, Shards: 4, Note: "user keys that look almost like reserved ones (proper prefixes, partial prefixes, empty) are user events: the position passes them only when they are acknowledged"})
 			out = append(out, Instance{Scenario: "c08_rollback", Params: mustJSON(RollbackParams{}), Bound: 0, Shards: 8, Note: "a restart answered with a rollback: every event above the checkpointed position is delivered (the first unsettled one is not skipped)"})
 			out = append(out, Instance{Scenario: "c01_finite_end", Params: mustJSON(struct{}{}), Bound: 0, Note: "finite mode: streams end cleanly while acknowledgements are withheld, then save and exit"})
+			out = append(out, Instance{Scenario: "c01_closewindow", Params: mustJSON(struct{}{}), Bound: 0, Note: "a save inside the close phase of a rebalance / shutdown while the server keeps sending: the stored position never passes a document the consumer was not shown"})
 			out = append(out, Instance{Scenario: "c01_concsave", Params: mustJSON(struct{}{}), Bound: 2, Shards: 8, Note: "the concurrent per-vBucket writes of one save under every schedule within the bound"})
 			out = append(out, Instance{Scenario: "pipe_tornfile", Params: mustJSON(struct{}{}), Bound: 0, Note: "crash inside os.WriteFile of the file backend: every prefix class of the JSON file"})
 			return out
@@ -419,6 +421,66 @@ func init() {
 				vrt.Failf("%s: the next run delivered %v of vb0, the withheld events are %v", desc, got, want)
 			}
 			vrt.SetOutcome(desc)
+		}}
+	}
+}
+
+// c01_closewindow: the close phase of a rebalance (or shutdown) takes a while - the observers have stopped
+// forwarding, the close-stream requests are still on the wire - and the server keeps sending: a document the
+// consumer is never shown, then a non-document event (seqno-advanced / system event) behind it. A save lands
+// inside that window (the consumer's Commit(), the periodic tick). The stored position must not pass the
+// document that was thrown away: after the re-open it is delivered.
+func init() {
+	scenarios["c01_closewindow"] = func(raw json.RawMessage) *vrt.Scenario {
+		return &vrt.Scenario{Name: "c01_closewindow", FreeChoices: true, NoTimerAlt: true, MaxSteps: 400000, Main: func() {
+			resetGlobals()
+			tail := []string{"SEQ", "CC", "M"}[vrt.Choose(3, true, "event-behind-the-dropped-document")]
+			shutdown := vrt.Choose(2, true, "shutdown-instead-of-rebalance") == 1
+			o := EnvOpts{Vbs: 1, CheckpointType: "manual", WrapMeta: true, RebalanceDelay: time.Second}
+			c := NewCluster(&o)
+			c.Append(0, marker(1, 2), mut(1, "a1"), mut(2, "a2"))
+			e := NewEnv(c, o)
+			e.Cons.AutoAck = true
+			e.Stream.Open()
+			c.WaitIdle()
+			vrt.Quiesce()
+			e.Stream.Save()
+			c.Fault = func(r *gocbcore.SimRequest) gocbcore.SimAnswer {
+				if r.Kind == "closestream" {
+					return gocbcore.SimAnswer{Kind: "latedelay", Delay: 2 * time.Second}
+				}
+				return gocbcore.SimAnswer{}
+			}
+			n0 := len(e.Cons.Events)
+			vrt.GoNamed("closer", func() {
+				if shutdown {
+					e.Stream.Close(true)
+				} else {
+					e.Stream.Rebalance()
+				}
+			})
+			vrt.Sleep(500 * time.Millisecond)
+			c.Append(0, marker(3, 4), mut(3, "a3"), symbolPacket(tail, 4))
+			vrt.Sleep(500 * time.Millisecond)
+			vrt.GoNamed("committer", func() { e.Stream.Save() })
+			vrt.Sleep(10 * time.Second)
+			vrt.Quiesce()
+			c.WaitIdle()
+			desc := fmt.Sprintf("close phase of a %s taking 2 s; document 3 and %s 4 arrive in it, then a save", map[bool]string{true: "shutdown", false: "rebalance"}[shutdown], tail)
+			shown3 := false
+			for _, d := range e.Cons.Events[n0:] {
+				if d.Seq == 3 {
+					shown3 = true
+				}
+			}
+			st, _ := e.StoredSeq(0)
+			if st > 2 && !shown3 {
+				vrt.Failf("%s: the store holds position %d, the consumer was never shown document 3 (it has acknowledged 1 and 2)", desc, st)
+			}
+			if !shutdown && !shown3 {
+				vrt.Failf("%s: after the re-open document 3 was not delivered", desc)
+			}
+			vrt.SetOutcome(fmt.Sprintf("%s|stored=%d shown3=%v", desc, st, shown3))
 		}}
 	}
 }
